@@ -163,6 +163,8 @@ package texttable
 //@   requires t != nil && tbl(t.Table) && ttab(t).nColumns <= 1048576
 //@   ensures [error-means-no-text] result1 != nil ==> result0 == "" @C09
 //@   ensures [table-still-wellformed] tbl(t.Table)
+//@   ensures [returns-exactly-what-RenderTo-wrote] result1 == nil ==> result0 == wcat(Wchunk, old(Wn), Wn) @C10
+//@   call RenderTo before ghost renderStart = Wn
 //@   call RenderTo before ghost Wfailed = false
 
 //@ func Render
